@@ -1,6 +1,7 @@
 //! Correspondence-check harness: reads one JSON case per line on stdin, runs it against the
 //! mini-mcmc implementation in /repo's working tree (hooks on), prints one JSON result per line.
 mod c01;
+mod c02;
 mod c05;
 mod c07;
 mod c09;
@@ -25,6 +26,7 @@ fn main() {
         let case: serde_json::Value = serde_json::from_str(&line).expect("json case");
         let res = util::guarded(|| match pid.as_str() {
             "C01" => c01::run(&case),
+            "C02" => c02::run(&case),
             "C05" => c05::run(&case),
             "C07" | "C18" => c07::run(&case),
             "C08" => c07::run08(&case),
